@@ -123,6 +123,7 @@ class C06(fw.Property):
         sys.path.insert(0, os.path.join(fw.VERIF, "harness"))
     def impl(self, stream, inp):
         self.setup()
+        if stream == "timeoutdict_ops": return self.impl_td(inp)
         d = _Driver(inp["endpoints"])
         out = []
         for idx, ev in enumerate(inp["events"]):
@@ -132,11 +133,37 @@ class C06(fw.Property):
         if d.loop.exceptions: res["loop_exceptions"] = [str(c.get("exception") or c.get("message"))[:120] for c in d.loop.exceptions]
         return res
 
+    def impl_td(self, inp):
+        """the real TimeoutDict under the virtual loop: get / set / pop / advance on integer keys"""
+        import simloop
+        from aiocoap.util.asyncio.timeoutdict import TimeoutDict
+        from aiocoap import numbers
+        loop = simloop.VLoop(); out = []
+        d = TimeoutDict(numbers.TransportTuning().MAX_TRANSMIT_WAIT)
+        for op in inp["ops"]:
+            got = None
+            if op[0] == "adv": loop.advance(op[1])
+            else:
+                with loop.enter():
+                    try:
+                        if op[0] == "get": got = d[op[1]]
+                        elif op[0] == "set": d[op[1]] = op[2]
+                        elif op[0] == "pop": got = d.pop(op[1], None)
+                    except KeyError: got = None
+                loop.drain()
+            h = d._timeout
+            out.append({"got": got, "keys": list(d._items), "due": None if h is None else int(round(h.when() * 1e6))})
+        res = {"outputs": out, "pending_timers": len(loop.pending_timers())}
+        if loop.exceptions: res["loop_exceptions"] = [str(c.get("exception") or c.get("message"))[:120] for c in loop.exceptions]
+        return res
+
     # ------------------------------------------------------------------ model
     def g_blk(self, b):
         return "None" if b is None else "(Some {| b_num := %s; b_more := %s; b_szx := %s |})" % (gz(b[0]), gbool(b[1]), gz(b[2]))
     def model(self, stream, inp):
-        if stream == "deferred": return None
+        if stream == "timeoutdict_ops":
+            ops = glist([{"get": "DGet %s", "pop": "DPop %s", "adv": "DAdv %s"}[o[0]] % gz(o[1]) if o[0] != "set" else "DSet %s %s" % (gz(o[1]), gz(o[2])) for o in inp["ops"]])
+            return "drun MAX_TRANSMIT_WAIT_us (0, td_empty) %s" % ops
         evs = []
         for idx, ev in enumerate(inp["events"]):
             if ev["t"] == "adv": evs.append("Advance %s" % gz(ev["dt"])); continue
@@ -150,6 +177,10 @@ class C06(fw.Property):
         return "snd (run MAX_TRANSMIT_WAIT_us (server_init %s) %s)" % (fw.gnat(NRES), glist(evs))
     def decode(self, stream, inp, parsed):
         p = fw.plain(parsed)
+        if stream == "timeoutdict_ops":
+            def o2(x): return None if x == "None" else x["a"][0]
+            outs = [{"got": o2(o["a"][0]), "keys": list(o["a"][1]), "due": o2(o["a"][2])} for o in p]
+            return {"outputs": outs, "pending_timers": 0 if not outs or outs[-1]["due"] is None else 1}
         def ob(x): return None if x == "None" else [x["a"][0]["b_num"], x["a"][0]["b_more"], x["a"][0]["b_szx"]]
         out = []
         for o, ev in zip(p, inp["events"]):
@@ -166,6 +197,7 @@ class C06(fw.Property):
     def oracle(self, stream, inp, res):
         if "harness_exception" in res: return ("C06:crash:" + res["where"], "driver raised %s: %s" % (res["harness_exception"], res.get("text")))
         if res.get("loop_exceptions"): return ("C06:loop-exception", "exception reached the event loop: %s" % res["loop_exceptions"][0])
+        if stream == "timeoutdict_ops": return self.oracle_td(inp, res)
         T = T_US
         t = 0
         asm = {}     # key -> {"payload", "ok": time of last successful use, "any": time of last touch, "b2": block-0's Block2, "first": block-0 event}
@@ -295,7 +327,38 @@ class C06(fw.Property):
                     where, start, start + size, len(r["body"]), start + size < len(r["body"]), len(resp["payload"]), resp["b2"], resp["code"]))
         return None
 
+    def oracle_td(self, inp, res):
+        """TimeoutDict lifetime: an entry is held while less than T passed since its last use (assignment or successful lookup,
+        since its last pop), it is gone 2T after, a lookup returns what was assigned last, a pop removes"""
+        T = T_US; t = 0; last = {}; val = {}
+        for idx, (op, o) in enumerate(zip(inp["ops"], res["outputs"])):
+            where = "op %d %s at t=%d" % (idx, op, t)
+            if op[0] == "adv": t += op[1]
+            elif op[0] == "set": last[op[1]] = t; val[op[1]] = op[2]
+            elif op[0] == "pop":
+                if op[1] in last and t < last[op[1]] + T and o["got"] != val[op[1]]: return ("C06:td-entry-lost-early", "%s: popped %r, entry assigned/used at %d" % (where, o["got"], last[op[1]]))
+                last.pop(op[1], None); val.pop(op[1], None)
+            elif op[0] == "get":
+                k = op[1]
+                if o["got"] is not None:
+                    if k not in val or o["got"] != val[k]: return ("C06:td-wrong-value", "%s returned %r" % (where, o["got"]))
+                    if t >= last[k] + 2 * T: return ("C06:td-entry-not-discarded", "%s: entry last used at %d still returned" % (where, last[k]))
+                    last[k] = t
+                else:
+                    if k in last and t < last[k] + T: return ("C06:td-entry-lost-early", "%s: KeyError although the entry was used at %d, less than MAX_TRANSMIT_WAIT ago" % (where, last[k]))
+                    last.pop(k, None); val.pop(k, None)
+            for k in o["keys"]:
+                if k not in last: return ("C06:td-popped-entry-held", "%s: key %d held although popped / never assigned" % (where, k))
+                if t >= last[k] + 2 * T: return ("C06:td-entry-not-discarded", "%s: key %d last used at %d still held" % (where, k, last[k]))
+            for k, a in last.items():
+                if t < a + T and k not in o["keys"]: return ("C06:td-entry-lost-early", "%s: key %d used at %d is gone before MAX_TRANSMIT_WAIT" % (where, k, a))
+        return None
+
     def nontrivial(self, stream, inp, res):
+        if stream == "timeoutdict_ops":
+            outs = res.get("outputs", [])
+            expired = any(op[0] == "adv" and i > 0 and len(o["keys"]) < len(outs[i - 1]["keys"]) for i, (op, o) in enumerate(zip(inp["ops"], outs)))
+            return fw.jdump([stream, inp]) if expired and any(op[0] == "get" and o["got"] is not None for op, o in zip(inp["ops"], outs)) else None
         multi = served = err = False
         for ev, o in zip(inp["events"], res.get("outputs", [])):
             if ev["t"] != "req" or not o.get("resp"): continue
@@ -307,7 +370,9 @@ class C06(fw.Property):
     # ------------------------------------------------------------------ generator
     def gen_cases(self, tier, rng, n):
         for k in range(n):
-            yield "block_sequences", gen_case(rng)
+            if k % 5 == 4: yield "timeoutdict_ops", gen_td_case(rng)
+            elif k % 5 == 2: yield "block_sequences", gen_supersede_case(rng)
+            else: yield "block_sequences", gen_case(rng)
         if tier == "thorough":
             import itertools
             ep = [{"mps": 1124, "mbse": 6}]
@@ -425,6 +490,77 @@ def perturb(rng, steps):
     else: steps[i]["ep"] = -1                                              # another endpoint continues the transfer (fixed up by caller)
     return steps
 
+def anchored_idle(rng, now, anchors):
+    """an idle time that ends at (an earlier event's time) + T or + 2T, -1/0/+1 us: hits the deadlines of timers started earlier,
+    whatever happened to the entries in between"""
+    targets = [a + m * T_US + d for a in anchors for m in (1, 2) for d in (-1, 0, 1) if a + m * T_US + d > now]
+    return rng.choice(targets) - now if targets else rng.choice(IDLE)
+
+def gen_td_case(rng):
+    """TimeoutDict op history over 3 keys: set / get / pop (often emptying the dict) / advance, idle times from the table or anchored at earlier deadlines"""
+    ops = []; now = 0; anchors = []; held = set(); v = 0
+    template = rng.random()
+    if template < 0.35:
+        # set, pop-to-empty, set, advance past the FIRST deadline, get
+        d1 = rng.choice([1, T_US // 2, T_US - 2, rng.randint(1, T_US - 2)]); d2 = rng.randint(0, T_US - 1 - d1)
+        k1 = rng.randrange(3); k2 = rng.choice([k1, rng.randrange(3)])
+        ops += [["set", k1, 1], ["adv", d1], ["pop", k1], ["adv", d2], ["set", k2, 2]]
+        t3 = d1 + d2
+        ops.append(["adv", rng.choice([T_US - t3, T_US - t3 + 1, T_US - 1, max(T_US - t3, 1) + rng.randint(0, t3 - 1 if t3 > 1 else 0)])])
+        ops.append(["get", k2])
+        ops += [["adv", rng.choice([0, 1, T_US - 1, T_US])], ["get", k2], ["adv", 2 * T_US], ["get", k2]]
+        return {"ops": ops}
+    for _ in range(rng.randint(4, 16)):
+        r = rng.random(); k = rng.randrange(3)
+        if r < 0.30: v += 1; ops.append(["set", k, v]); anchors.append(now); held.add(k)
+        elif r < 0.50: ops.append(["get", k]); anchors.append(now)
+        elif r < 0.68:
+            k = rng.choice(sorted(held)) if held and rng.random() < 0.8 else k
+            ops.append(["pop", k]); held.discard(k)
+        else:
+            dt = anchored_idle(rng, now, anchors) if rng.random() < 0.5 else rng.choice(IDLE + [rng.randint(0, 3 * T_US)])
+            ops.append(["adv", dt]); now += dt
+    ops += [["get", 0], ["get", 1], ["get", 2], ["adv", rng.choice([0, T_US, 2 * T_US])]]
+    return {"ops": ops}
+
+def gen_supersede_case(rng):
+    """a stored rendering is superseded by a complete answer (Block2Cache pops it, often leaving the cache empty), a new rendering is stored,
+    and a later block is requested at an idle time chosen relative to the FIRST timer's deadline t0+T"""
+    kind = dict(rng.choice(ENDPOINT_KINDS[:2])); endpoints = [kind]
+    res = rng.randrange(NRES); opts = gen_opts(rng, res); code = rng.choice([GET, GET, FETCH])
+    szx = rng.choice([0, 0, 1, 2]); size = bsize(szx)
+    big = rng.choice([n for n in RLENS if n > size]); small = rng.choice([n for n in RLENS if n <= size])
+    def rq(b2, rlen, o=None):
+        return {"t": "req", "ep": 0, "res": res, "code": code, "con": rng.random() < 0.3, "opts": (o if o is not None else opts) + volatile_opts(rng, code), "b1": None, "b2": b2,
+                "pseed": 0, "plen": 0, "rcode": 69, "rseed": rng.randint(0, 255), "rlen": rlen}
+    events = []; now = 0
+    pre = rng.random()
+    if pre < 0.2:   # another key holds an entry: the pop does not empty the cache
+        events.append(rq([0, False, szx], big, opts + [[U_QUERY, list(b"other=1")]]))
+    elif pre < 0.3:
+        d0 = rng.choice([1, T_US // 2, T_US - 1]); events += [rq([0, False, szx], big), {"t": "adv", "dt": d0}]; now += d0
+    t0 = now
+    events.append(rq([0, False, szx], big))                                    # (1) stored, timer deadline t0+T (unless one runs already)
+    d1 = rng.choice([0, 1, T_US // 2, T_US - 2, rng.randint(0, T_US - 2)])
+    events.append({"t": "adv", "dt": d1}); now += d1
+    events.append(rq(rng.choice([None, [0, False, 6], [0, False, szx]]), small)) # (2) complete answer supersedes: pop
+    d2 = rng.randint(0, T_US - 1 - d1) if rng.random() < 0.8 else rng.choice([0, 1])
+    events.append({"t": "adv", "dt": d2}); now += d2
+    events.append(rq([0, False, szx], big))                                    # (3) stored again at t3 < t0+T
+    t3 = now
+    first_deadline = t0 + T_US
+    choices = [first_deadline - now, first_deadline - now + 1, t3 + T_US - 1 - now, first_deadline - now + (t3 - t0) // 2]
+    if first_deadline - now > 1: choices.append(first_deadline - now - 1)
+    d3 = max(0, rng.choice(choices))
+    events.append({"t": "adv", "dt": d3}); now += d3
+    nblocks = -(-big // size)
+    events.append(rq([rng.randrange(1, nblocks + 1), False, szx], big))        # (4) later block: within T of (3) it must be served
+    d4 = rng.choice([0, 1, T_US - 1, T_US, anchored_idle(rng, now, [t0, t3, now])])
+    events.append({"t": "adv", "dt": d4}); now += d4
+    events.append(rq([1, False, szx], big))
+    events.append({"t": "adv", "dt": rng.choice([0, T_US, 2 * T_US])})
+    return {"endpoints": endpoints, "events": events}
+
 def gen_case(rng):
     nep = rng.choice([1, 1, 2, 2, 3])
     endpoints = [dict(rng.choice(ENDPOINT_KINDS[:4]) if rng.random() < 0.95 else ENDPOINT_KINDS[4]) for _ in range(nep)]
@@ -440,15 +576,17 @@ def gen_case(rng):
             if s["ep"] == -1: s["ep"] = rng.randrange(nep)
         transfers.append(steps)
     # interleave
-    events = []
+    events = []; now = 0; anchors = []
     mode = rng.random()
     while any(transfers):
         live = [tr for tr in transfers if tr]
         tr = live[0] if mode < 0.3 else rng.choice(live)
-        events.append(tr.pop(0))
+        events.append(tr.pop(0)); anchors.append(now)
         r = rng.random()
-        if r < 0.25: events.append({"t": "adv", "dt": rng.choice(IDLE)})
-        elif r < 0.30: events.append({"t": "adv", "dt": rng.randint(0, 3 * T_US)})
+        if r < 0.20: events.append({"t": "adv", "dt": rng.choice(IDLE)})
+        elif r < 0.28: events.append({"t": "adv", "dt": anchored_idle(rng, now, anchors)})
+        elif r < 0.33: events.append({"t": "adv", "dt": rng.randint(0, 3 * T_US)})
+        if events[-1]["t"] == "adv": now += events[-1]["dt"]
     if len(events) > 28: events = events[:28]
     events.append({"t": "adv", "dt": rng.choice([0, T_US, 2 * T_US, 2 * T_US - 1])})
     return {"endpoints": endpoints, "events": events}
